@@ -103,7 +103,7 @@ fn parse_write_request(data: &[u8]) -> Result<WriteRequest> {
             (1, 2) => {
                 let (length, new_pos) = read_varint(data, pos)?;
                 pos = new_pos;
-                let end = pos + length as usize;
+                let end = pos.saturating_add(length as usize);
                 if end > data.len() {
                     return Err(crate::Error::InvalidSchema("Truncated timeseries".into()));
                 }
@@ -124,7 +124,7 @@ fn parse_write_request(data: &[u8]) -> Result<WriteRequest> {
             (_, 2) => {
                 // Length-delimited
                 let (length, new_pos) = read_varint(data, pos)?;
-                pos = new_pos + length as usize;
+                pos = skip_bytes(data, new_pos, length)?;
             }
             (_, 5) => {
                 // 32-bit
@@ -160,7 +160,7 @@ fn parse_timeseries(data: &[u8]) -> Result<TimeSeries> {
             (1, 2) => {
                 let (length, new_pos) = read_varint(data, pos)?;
                 pos = new_pos;
-                let end = pos + length as usize;
+                let end = pos.saturating_add(length as usize);
                 if end > data.len() {
                     return Err(crate::Error::InvalidSchema("Truncated label".into()));
                 }
@@ -172,7 +172,7 @@ fn parse_timeseries(data: &[u8]) -> Result<TimeSeries> {
             (2, 2) => {
                 let (length, new_pos) = read_varint(data, pos)?;
                 pos = new_pos;
-                let end = pos + length as usize;
+                let end = pos.saturating_add(length as usize);
                 if end > data.len() {
                     return Err(crate::Error::InvalidSchema("Truncated sample".into()));
                 }
@@ -190,7 +190,7 @@ fn parse_timeseries(data: &[u8]) -> Result<TimeSeries> {
             }
             (_, 2) => {
                 let (length, new_pos) = read_varint(data, pos)?;
-                pos = new_pos + length as usize;
+                pos = skip_bytes(data, new_pos, length)?;
             }
             (_, 5) => {
                 pos += 4;
@@ -225,7 +225,7 @@ fn parse_label(data: &[u8]) -> Result<Label> {
             (1, 2) => {
                 let (length, new_pos) = read_varint(data, pos)?;
                 pos = new_pos;
-                let end = pos + length as usize;
+                let end = pos.saturating_add(length as usize);
                 if end > data.len() {
                     return Err(crate::Error::InvalidSchema("Truncated label name".into()));
                 }
@@ -236,7 +236,7 @@ fn parse_label(data: &[u8]) -> Result<Label> {
             (2, 2) => {
                 let (length, new_pos) = read_varint(data, pos)?;
                 pos = new_pos;
-                let end = pos + length as usize;
+                let end = pos.saturating_add(length as usize);
                 if end > data.len() {
                     return Err(crate::Error::InvalidSchema("Truncated label value".into()));
                 }
@@ -253,7 +253,7 @@ fn parse_label(data: &[u8]) -> Result<Label> {
             }
             (_, 2) => {
                 let (length, new_pos) = read_varint(data, pos)?;
-                pos = new_pos + length as usize;
+                pos = skip_bytes(data, new_pos, length)?;
             }
             (_, 5) => {
                 pos += 4;
@@ -309,7 +309,7 @@ fn parse_sample(data: &[u8]) -> Result<Sample> {
             }
             (_, 2) => {
                 let (length, new_pos) = read_varint(data, pos)?;
-                pos = new_pos + length as usize;
+                pos = skip_bytes(data, new_pos, length)?;
             }
             (_, 5) => {
                 pos += 4;
@@ -327,6 +327,17 @@ fn parse_sample(data: &[u8]) -> Result<Sample> {
         timestamp_ms,
         value,
     })
+}
+
+/// Position after skipping `length` bytes from `pos`; an error if the field runs past the buffer
+/// (a hostile length must neither wrap around nor move the cursor backwards).
+fn skip_bytes(data: &[u8], pos: usize, length: u64) -> Result<usize> {
+    match pos.checked_add(length as usize) {
+        Some(end) if end <= data.len() => Ok(end),
+        _ => Err(crate::Error::InvalidSchema(
+            "Truncated length-delimited field".into(),
+        )),
+    }
 }
 
 /// Read a varint from the buffer, returning (value, new_position)
